@@ -282,3 +282,17 @@ def rotation(env, ny, gibbs):
     env.assumptions.add("non-singular clamped stiffness matrix (uniqueness of the displacements)")
     env.note("c10.rotation: invariance of the tube von Mises stresses under the rotation is not decided (nested radicals whose "
              "radicands agree only as rational functions); the clause concerns the displacement response")
+
+
+@job("c10.disp", ("C10", "C04", "C07"), cfgs=[dict(ny=3, symmetry=True), dict(ny=4, symmetry=False), dict(ny=5, symmetry=False), dict(ny=2, symmetry=False, _tier=T)])
+def disp_report(env, ny, symmetry):
+    """the reported displacements are the solution of the clamped system, node by node: every free node (odd and even numbers
+    of spanwise nodes, where 'the middle node' is a convention of the solver alone) carries the six unknowns the FEM solved for"""
+    s = surface(name="wing", nx=2, ny=ny, symmetry=symmetry)
+    h = env.comp("disp", lambda: cls("structures.disp.Disp")(surface=s))
+    ins = h.inputs()
+    u = np.asarray(ins["disp_aug"]).reshape(-1)
+    root = ny - 1 if symmetry else (ny - 1) // 2          # the node the FEM clamps (its entries of the solution are zero)
+    free = [j for j in range(ny) if j != root]
+    env.eq("C10,C04,C07", "reported displacements of the free nodes == their entries of the solution vector (Lagrange multipliers dropped)",
+           h.compute(ins)["disp"][free], u[:6 * ny].reshape(ny, 6)[free])
